@@ -63,8 +63,9 @@ def run(ctx, focus='C11'):
         # the guesser's view: enumerate levels while they stay small
         glevel, total, lmax = {}, 0, -1
         per_level = {}
+        shared_opt = Optimizer(4)          # one memo table for all levels, as PcfgGrammar uses it
         for L in range(0, 19):
-            gs = corr_omen.real_enum(g, L, Optimizer(4), limit=20001)
+            gs = corr_omen.real_enum(g, L, shared_opt if i % 2 == 0 else Optimizer(4), limit=20001)
             if gs is None or len(gs) > 20000 or total + len(gs) > 60000:
                 break
             per_level[L] = len(gs)
